@@ -73,7 +73,7 @@ def build_axioms():
     ax('low_id', FA([x, a], _imp(z3.And(a >= 0, x >= 0, x < pow2(a)), low(x, a) == x), [low(x, a)]))
     ax('shr_nonneg', FA([x, a], _imp(z3.And(a >= 0, x >= 0), z3.And(shr(x, a) >= 0, shr(x, a) <= x)), [shr(x, a)]))
     ax('pow2_pos', FA([a], pow2(a) >= 1, [pow2(a)]))
-    ax('pow2_succ', FA([a], _imp(a >= 0, pow2(a + 1) == 2 * pow2(a)), [pow2(a + 1)]))
+    ax('pow2_succ', FA([a, b], _imp(z3.And(a >= 0, b == a + 1), pow2(b) == 2 * pow2(a)), [z3.MultiPattern(pow2(a), pow2(b))]))
     ax('pow2_mono', FA([a, b], _imp(z3.And(0 <= a, a <= b), pow2(a) <= pow2(b)), [z3.MultiPattern(pow2(a), pow2(b))]))
     # split:  x = shr(x,a)*2^a + low(x,a)
     ax('split', FA([x, a], _imp(a >= 0, x == shr(x, a) * pow2(a) + low(x, a)), [z3.MultiPattern(shr(x, a), low(x, a))]))
@@ -95,14 +95,15 @@ def build_axioms():
     ax('len0_empty', FA([d], _imp(blen(d) == 0, d == bempty), [blen(d)]))
     ax('sl_len', FA([d, lo, hi], _imp(z3.And(0 <= lo, lo <= hi, hi <= blen(d)), blen(sl(d, lo, hi)) == hi - lo),
                     [sl(d, lo, hi)]))
-    ax('sl_full', FA([d], sl(d, 0, blen(d)) == d, [sl(d, 0, blen(d))]))
+    ax('sl_full', FA([d, lo, hi], _imp(z3.And(lo == 0, hi == blen(d)), sl(d, lo, hi) == d), [sl(d, lo, hi)]))
     ax('sl_sl', FA([d, lo, hi, lo2, hi2],
                    _imp(z3.And(0 <= lo, lo <= hi, hi <= blen(d), 0 <= lo2, lo2 <= hi2, hi2 <= hi - lo),
                         sl(sl(d, lo, hi), lo2, hi2) == sl(d, lo + lo2, lo + hi2)), [sl(sl(d, lo, hi), lo2, hi2)]))
     ax('cat_len', FA([d, e], blen(cat(d, e)) == blen(d) + blen(e), [cat(d, e)]))
-    ax('cat_sl_adj', FA([d, lo, hi, hi2], _imp(z3.And(0 <= lo, lo <= hi, hi <= hi2, hi2 <= blen(d)),
-                                              cat(sl(d, lo, hi), sl(d, hi, hi2)) == sl(d, lo, hi2)),
-                        [cat(sl(d, lo, hi), sl(d, hi, hi2))]))
+    ax('cat_sl_adj', FA([d, e, lo, hi, lo2, hi2],
+                        _imp(z3.And(e == d, lo2 == hi, 0 <= lo, lo <= hi, hi <= hi2, hi2 <= blen(d)),
+                             cat(sl(d, lo, hi), sl(e, lo2, hi2)) == sl(d, lo, hi2)),
+                        [cat(sl(d, lo, hi), sl(e, lo2, hi2))]))
     ax('cat_empty_l', FA([d], cat(bempty, d) == d, [cat(bempty, d)]))
     ax('cat_empty_r', FA([d], cat(d, bempty) == d, [cat(d, bempty)]))
     ax('sl_cat_l', FA([d, e, lo, hi], _imp(z3.And(0 <= lo, lo <= hi, hi <= blen(d)),
@@ -129,8 +130,8 @@ def build_axioms():
     ax('bfind_range', FA([d, e], z3.And(bfind(d, e) >= -1, bfind(d, e) + blen(e) <= blen(d)), [bfind(d, e)]))
     ax('bfind_hit', FA([d, e], _imp(bfind(d, e) >= 0, sl(d, bfind(d, e), bfind(d, e) + blen(e)) == e), [bfind(d, e)]))
     # ---- reals ------------------------------------------------------------------------------------------------
-    ax('rpow_0', FA([r], rpow(r, 0) == 1, [rpow(r, 0)]))
-    ax('rpow_1', FA([r], rpow(r, 1) == r, [rpow(r, 1)]))
+    ax('rpow_0', FA([r, a], _imp(a == 0, rpow(r, a) == 1), [rpow(r, a)]))
+    ax('rpow_1', FA([r, a], _imp(a == 1, rpow(r, a) == r), [rpow(r, a)]))
     ax('rpow2_pos', FA([a], rpow2(a) > 0, [rpow2(a)]))
     ax('rpow2_0', rpow2(0) == 1)
     return A
